@@ -259,8 +259,24 @@ def gen_case(rng):
         elif wrepr == "f32" and style == "spread":
             pool = [rng.randint(0, 10 ** 5) for _ in range(npool)]
     wexp = rng.choice([0, 0, 0, -40, 90, 127]) if (mode == "dict" and wrepr in ("pyfloat", "f64")) else 0
+    # scale class: tiny / huge units (exactly representable scalings), for custom weights and for the coordinates of the
+    # Euclidean mode alike: an absolute tolerance anywhere in the code shows at these scales
+    cexp = 0
+    if rng.random() < 0.22:
+        ex = rng.choice([-30, -33, -36, -40, -40, 30])
+        if mode == "dict":
+            if wrepr not in ("pyfloat", "f64"):
+                wrepr = rng.choice(["pyfloat", "f64"])
+                if style in ("dtype-range", "bool"):
+                    style = "small"
+                    pool, den = [rng.randint(1, 4) for _ in range(npool)], 1
+            wexp = ex
+        elif mode == "attr":
+            wexp = ex
+        elif mode == "length" and b["kind"] in ("arrays", "raw"):
+            cexp = ex
     case = {"build": b, "mode": mode, "wpool": pool, "wden": den, "unset": rng.choice([0, 0, 2, 3, 5]),
-            "wstyle": style, "wrepr": wrepr, "wexp": wexp, "queries": []}
+            "wstyle": style, "wrepr": wrepr, "wexp": wexp, "cexp": cexp, "queries": []}
     # session scenarios: the answers must depend on the current mesh and the arguments only
     if rng.random() < 0.3:
         case["ambient"] = [[[rng.randrange(0, 12), rng.choice(AMBIENT_PRIOS)] for _ in range(rng.randint(1, 4))]
@@ -887,6 +903,8 @@ def run(ctx):
         ctx.count("mesh " + inf["type"])
         ctx.count("build " + (c["build"].get("name") or c["build"]["kind"]))
         ctx.count("mode " + c["mode"])
+        if c.get("wexp") or c.get("cexp"):
+            ctx.count("scale class: %s scaled by 2^%d" % ("weights" if c.get("wexp") else "coordinates", c.get("wexp") or c.get("cexp")))
         if c["mode"] == "dict":
             ctx.count("custom weights given as " + c.get("wrepr", "pyfloat"))
         ctx.count("vertices<=%d" % (10 * ((inf["n"] + 9) // 10)))
